@@ -284,12 +284,61 @@ def _get_input_data(ctx: Ctx, c: Collector) -> None:
     raw_s = ctx.raw(GID)        # before helper splicing: the calls as written
     other_merge = [e for e in raw_s.of_kind("call") if e.term[1][0] == "glob" and e.term[1][1] not in (MERGE_ALL, MERGE_EX)
                    and any(T.contains((a,), pers) for a in e.term[2]) and len(e.term[2]) >= 2 and not any(x.term[1][0] == "glob" and x.term[1][1] in (MERGE_ALL, MERGE_EX) and T.contains((x.term,), pers) for x in raw_s.of_kind("call"))]
-    if not into and other_merge:
+    abs_into = abs_back = None
+    abs_err = None
+    if other_merge and (not into or not back):
+        from .. import mergeabs
+        import ast as _ast
+
+        def _summ(e):
+            q = e.term[1][1]
+            hfi = ctx.prog.functions.get(q)
+            if hfi is None or isinstance(hfi.node, _ast.Lambda):
+                raise mergeabs.NotUnderstood(f"{q} is not a package function")
+            funcs = {n.name: n for n in hfi.module.tree.body if isinstance(n, _ast.FunctionDef)}
+            params = [a.arg for a in hfi.node.args.args] + [a.arg for a in hfi.node.args.kwonlyargs]
+            consts = {}
+            for pn, a in list(zip(params[2:], e.term[2][2:])) + [(k, v) for k, v in e.term[3]]:
+                a = T.strip(a)
+                if a[0] != "const":
+                    raise mergeabs.NotUnderstood(f"argument {pn} is not a constant")
+                consts[pn] = a[1]
+            return mergeabs.summarise(funcs, hfi.name, consts)
+        try:
+            for e in other_merge:
+                a0 = T.strip(e.term[2][0])
+                if a0 == inp and T.contains((e.term[2][1],), pers) and abs_into is None:
+                    abs_into = (e, _summ(e), T.strip(e.term[2][1]))
+                elif a0 == pers and abs_back is None:
+                    abs_back = (e, _summ(e), T.strip(e.term[2][1]))
+        except mergeabs.NotUnderstood as ex:
+            abs_err = str(ex)
+    if not into and abs_into is not None:
+        e, lv, other = abs_into
+        pr, pr13 = [], []
+        if len(lv) != 3:
+            pr.append(f"the merge helper descends {len(lv)} level(s) instead of the 3 that mosaik controls")
+        else:
+            fresh0 = _fresh_depth(other)
+            for L, l in enumerate(lv, 1):
+                if l["only_other"] == "none":
+                    pr.append(f"entries of the memory that the step inputs lack are not added on level {L}")
+                elif L < 3 and l["only_other"][1] < 3 - L and fresh0 < 3:
+                    pr13.append(f"on level {L} the merge helper puts the memory's own sub-dicts into the step inputs ({l['only_other'][1]} fresh level(s) below, {3 - L} needed): later "
+                                "writes into the step inputs (buffered events, pulled values, an in-process simulator) modify the memory itself")
+                if L < 3 and l["both"] != "recurse":
+                    pr.append(f"on level {L} an entry that both have is {'replaced by the memory' if l['both'] == 'new' else 'not merged any further'}")
+                if L == 3 and l["both"] != "old":
+                    pr.append("a remembered value replaces the value that is already in the step inputs (a set_data value loses against the memory)")
+        c.add("memory", GID, "persistent memory merged into the inputs (3 x merge_all, existing value wins)", VIOLATED if pr else DISCHARGED, "; ".join(pr) or f"level summary {lv}", loc)
+        c.add("R13", GID, "no alias of persistent_inputs reachable from the step inputs", VIOLATED if pr13 else DISCHARGED, "; ".join(pr13), loc)
+    elif not into and other_merge:
         c.unk("memory", GID, "persistent memory merged into the inputs (3 x merge_all, existing value wins)",
               f"the memory is handed to {T.show(other_merge[0].term[1])}, a merge helper whose effect is not understood", loc)
     else:
         c.add("memory", GID, "persistent memory merged into the inputs (3 x merge_all, existing value wins)", VIOLATED if pr else DISCHARGED, "; ".join(pr), loc)
-    c.add("R13", GID, "no alias of persistent_inputs reachable from the step inputs", VIOLATED if pr13 else DISCHARGED, "; ".join(pr13), loc)
+    if into or abs_into is None:
+        c.add("R13", GID, "no alias of persistent_inputs reachable from the step inputs", VIOLATED if pr13 else DISCHARGED, "; ".join(pr13), loc)
     # (c) write-back
     pr = []
     if not back:
@@ -305,7 +354,26 @@ def _get_input_data(ctx: Ctx, c: Collector) -> None:
             pr.append("the write-back keeps the old value instead of taking the new one")
         if into and e.idx < into[0][0].idx:
             pr.append("the write-back precedes reading the memory")
-    if not back and other_merge and any(T.strip(e.term[2][0]) == pers for e in other_merge if e.term[2]):
+    if not back and abs_back is not None:
+        e, lv, other = abs_back
+        pr = []
+        if other != inp and not (other[0] == "var"):
+            pr.append(f"writes back {T.show(other)[:60]} instead of the step inputs")
+        if len(lv) != 3:
+            pr.append(f"the write-back descends {len(lv)} level(s) instead of 3")
+        else:
+            for L, l in enumerate(lv, 1):
+                if l["only_other"] != "none":
+                    pr.append(f"on level {L} keys that the memory does not have are added to it: sources that are not persistent connections (events, set_data) "
+                              "are remembered and delivered again at every later step")
+                if L < 3 and l["both"] != "recurse":
+                    pr.append(f"on level {L} the write-back {'replaces whole sub-dicts' if l['both'] == 'new' else 'stops'} instead of descending")
+                if L == 3 and l["both"] != "new":
+                    pr.append("the write-back keeps the old value instead of taking the new one")
+        if abs_into is not None and e.idx < abs_into[0].idx:
+            pr.append("the write-back precedes reading the memory")
+        c.add("writeback", GID, "write-back only into existing keys (3 x merge_existing, new value wins)", VIOLATED if pr else DISCHARGED, "; ".join(pr) or f"level summary {lv}", loc)
+    elif not back and other_merge and any(T.strip(e.term[2][0]) == pers for e in other_merge if e.term[2]):
         c.unk("writeback", GID, "write-back only into existing keys (3 x merge_existing, new value wins)",
               "the memory is updated by a merge helper whose effect is not understood", loc)
     else:
